@@ -116,6 +116,8 @@ class SFTPClient(BaseSFTP, ClosingContextManager):
         self.request_number = 1
         # lock for request_number
         self._lock = threading.Lock()
+        # one whole request packet at a time on the channel (see _async_request)
+        self._send_lock = threading.Lock()
         self._cwd = None
         # request # -> SFTPFile
         self._expecting = weakref.WeakValueDictionary()
@@ -879,7 +881,12 @@ class SFTPClient(BaseSFTP, ClosingContextManager):
         finally:
             self._lock.release()
         try:
-            self._send_packet(t, msg)
+            # a packet may leave in several channel sends; the read-ahead
+            # thread's requests must not land in the middle of another one.
+            # (Not self._lock: reading responses must stay possible while a
+            # send waits for window space.)
+            with self._send_lock:
+                self._send_packet(t, msg)
         except EOFError as e:
             # the connection is gone; further up a bare EOFError would pass
             # for "end of file" (as it does when reading a response fails)
